@@ -97,6 +97,15 @@ CLAIMED = {
             'offset-aware datetimes.',
             'closed cells, ties accept either neighbour; without a bounds variable the outer half cells are judged '
             'only for uniformly spaced coordinates', 'DESIGN.md section 4 C16'),
+    'C06': ('A', 'model_checking',
+            'bounded-exhaustive enumeration of operand dtypes/masks/operators, eval programs and mask predicate subsets on the real code vs numpy evaluation',
+            'Operators: every (left dtype, right dtype) over 4 (quick) / 6 (thorough) dtypes x 4 mask configurations x '
+            '13 operators x 2-3 array shapes with operands holding all 81 value pairs of an adversarial alphabet '
+            '(zero, +-1, halves, 1e30, 1e-30, integer extremes): result must equal numpy on the raw data with operand '
+            'masks united and non-finite cells masked; coordinate variables must come unchanged from the left operand. '
+            'eval: 14 programs x copyall. mask: all 256 predicate subsets x dims given/omitted x coords flag.',
+            'numpy is the reference for elementwise arithmetic; +-0 not distinguished; integer division by zero '
+            'cells not compared', 'DESIGN.md section 4 C06'),
 }
 
 PENDING_REASON = ('check not built yet in this session; planned per DESIGN.md section 4 '
